@@ -10,8 +10,8 @@ Part B  the reference codec is a codec: decode (encode x ++ rest) = (x, rest) fo
         messages, and whole record sets (any mix of entries, any number of them).
 Part C  what the library's writers emit is the Spec encoding of exactly the records given
         (→ an independent decoder accepts it and returns them: order, offset deltas 0..n-1, millisecond
-        timestamps, null ≠ empty, headers), for the protocol path and for the Conn path; the computed
-        sizes are the actual lengths; D6: the pre-repair timestamp-delta formula is wrong (counterexample).
+        timestamps, null ≠ empty, headers), for the protocol path and for the Conn path, plain AND compressed
+        (abstract compressor with dec∘comp = id), v1 and v2; the computed sizes are the actual lengths; D6: the pre-repair timestamp-delta formula is wrong (counterexample).
 Part D  pages: refcount/pool invariant over all op sequences; a page with a live count is never recycled.
 
 Part F  the Client.Fetch-path DECODER (Model/RecordReader: readFromVersion2, readMessage/readFromVersion1,
@@ -131,6 +131,53 @@ theorem legacy_v2_write_spec (crc : Bytes → Nat) (hcrc : ∀ b, crc b < M32) (
       flattenEntry ⟨crc, crc⟩ (fun _ _ => none) (.batch f) =
         some (false, expected (recs.map (fun r => timestampOf r.time)) recs) :=
   legacyBatch_spec crc hcrc recs hne hwf
+
+/-- protocol `writeToVersion2` WITH compression (any codec: abstract compressor `comp`, decompressor `dec` with
+`dec (comp p) = p`): header fields, count, deltas as in the plain case, CRC over attributes..end of the compressed
+payload; decompressing and decoding gives back exactly the given records -/
+theorem v2_write_compressed_spec (crc : Bytes → Nat) (hcrc : ∀ b, crc b < M32) (comp : Bytes → Bytes)
+    (dec : Int → Bytes → Option Bytes) (attrs now : Int) (recs : List PRec)
+    (hne : recs ≠ []) (hwf : (frameOfV2C comp attrs now recs).WF) (hcodec : codecOf attrs ≠ 0)
+    (hdec : ∀ p, dec (codecOf attrs) (comp p) = some p) :
+    ∃ bytes f, writeV2C crc comp attrs now recs = some bytes ∧
+      readFrame crc bytes = some (f, []) ∧ f.baseOffset = 0 ∧ f.count = recs.length ∧
+      f.lastOffsetDelta = (recs.length : Int) - 1 ∧
+      flattenEntry ⟨crc, crc⟩ dec (.batch f) = some (isControl attrs, expected (recs.map (effTime now)) recs) :=
+  writeV2C_spec crc hcrc comp dec attrs now recs hne hwf hcodec hdec
+
+/-- Conn `WriteCompressedMessages`, produce v3/v7 (`compressRecordBatch` + `writeRecordBatch`) -/
+theorem legacy_v2_write_compressed_spec (crc : Bytes → Nat) (hcrc : ∀ b, crc b < M32) (comp : Bytes → Bytes)
+    (dec : Int → Bytes → Option Bytes) (code : Int) (recs : List PRec)
+    (hne : recs ≠ []) (hwf : (legacyFrameC comp code recs).WF) (hcodec : codecOf code ≠ 0)
+    (hdec : ∀ p, dec (codecOf code) (comp p) = some p) :
+    ∃ f, readFrame crc (legacyBatchC crc comp code recs) = some (f, []) ∧ f.baseOffset = 0 ∧ f.count = recs.length ∧
+      f.lastOffsetDelta = (recs.length : Int) - 1 ∧
+      flattenEntry ⟨crc, crc⟩ dec (.batch f) =
+        some (isControl code, expected (recs.map (fun r => timestampOf r.time)) recs) :=
+  legacyBatchC_spec crc hcrc comp dec code recs hne hwf hcodec hdec
+
+/-- protocol `writeToVersion1` WITH compression: exactly one wrapper message (null key, value = compressed set) that
+the reference decoder accepts, and the uncompressed set it wraps decodes to the given records, offsets 0..n-1 -/
+theorem v1_write_compressed_spec (c : Crcs) (h1 : ∀ b, c.ieee b < M32) (h2 : ∀ b, c.castagnoli b < M32)
+    (comp : Bytes → Bytes) (attrs now : Int) (recs : List PRec)
+    (hw : (⟨0, 1, attrs, now, none, some (comp (writeV1 c.ieee (attrs - attrs % 8) now 0 recs))⟩ : Msg).WF)
+    (hwf : ∀ m ∈ msgsOfV1 (attrs - attrs % 8) now 0 recs, m.WF) :
+    decodeSet c (writeV1C c.ieee comp attrs now recs) =
+      some [.msg ⟨0, 1, attrs, now, none, some (comp (writeV1 c.ieee (attrs - attrs % 8) now 0 recs))⟩] ∧
+    decodeSet c (writeV1 c.ieee (attrs - attrs % 8) now 0 recs) =
+      some ((msgsOfV1 (attrs - attrs % 8) now 0 recs).map Entry.msg) :=
+  writeV1C_spec c h1 h2 comp attrs now recs hw hwf
+
+/-- Conn produce v2 (`writeMessage`, `compressMessageSet`): `messageSize` is the real size; the plain set and the set
+inside a wrapper decode to the given messages; the wrapper is `encMsg ⟨0, 1, code, 0, null, compressed⟩` -/
+theorem legacy_v1_write_spec (c : Crcs) (h1 : ∀ b, c.ieee b < M32) (h2 : ∀ b, c.castagnoli b < M32)
+    (comp : Bytes → Bytes) (code : Int) (recs : List PRec)
+    (hwf0 : ∀ m ∈ legacyMsgs 0 (fun _ => 0) 0 recs, m.WF) (hwf1 : ∀ m ∈ legacyMsgs 0 (fun j => (j : Int)) 0 recs, m.WF) :
+    decodeSet c (legacyMessageSet c.ieee recs) = some ((legacyMsgs 0 (fun _ => 0) 0 recs).map Entry.msg) ∧
+    decodeSet c (legacyInner c.ieee 0 recs) = some ((legacyMsgs 0 (fun j => (j : Int)) 0 recs).map Entry.msg) ∧
+    legacyWrapper c.ieee comp code recs = encMsg c.ieee ⟨0, 1, code, 0, none, some (comp (legacyInner c.ieee 0 recs))⟩ :=
+  ⟨(Model.RecordWriter.legacy_v1_write_spec c h1 h2 recs hwf0 hwf1).1,
+   (Model.RecordWriter.legacy_v1_write_spec c h1 h2 recs hwf0 hwf1).2, legacyWrapper_eq c.ieee comp code recs⟩
 
 /-- the size announced in front of the batch (`recordBatch.size`, also used for the request size) is the
 number of bytes written -/
